@@ -78,7 +78,7 @@ where
         }
     }
     let fut = svc.call(req);
-    Some(Box::pin(async move { render(&fut.await) }))
+    Some(held(fut, |r| render(&r)))
 }
 
 impl Mw for Adapter {
